@@ -170,6 +170,11 @@ impl NodeDrive {
                         );
                     } else {
                         log::debug!("To reclame_space nothing need to be done on delete");
+                        // The key is not written to the new files. Forget the in-memory
+                        // tombstone too: its disk addresses point into the files that were
+                        // just replaced, a later in-place update through them would damage
+                        // another key's record
+                        db.forget_deleted_key(&key);
                     }
                 }
             }
